@@ -1954,7 +1954,7 @@ class Exec:
                     tm = self.repo.module("liquid2.token")
                     if tm is not None and "ErrorToken" in tm.classes:
                         excv.attrs["token"] = HObj(ClassRef("ErrorToken", tm, tm.classes["ErrorToken"]),
-                                                   {"index": self.fresh("err_index", "int"), "__open__": True})
+                                                   {"index": self.fresh("err_index", "int"), "value": self.fresh("err_value", "str"), "__open__": True})
                 fr.locals["exc"] = excv
                 for clause in c.post_exc.get(exc_name, []):
                     self.assume(self.spec_bool(clause, fr))
